@@ -62,7 +62,14 @@ fn nfc_mul_pow2_assign(power: i64, x: &mut [i128]) {
     if power > 0 {
         x.iter_mut().for_each(|xi| *xi <<= power as u32);
     } else if power < 0 {
-        x.iter_mut().for_each(|xi| *xi >>= (-power) as u32);
+        // round to nearest exactly as the i64 kernel (znx_mul_power_of_two_assign_ref) does: the two families
+        // must agree bit for bit on the digits cut inside a limb
+        let k: u32 = (-power) as u32;
+        x.iter_mut().for_each(|xi| {
+            let sign_bit: i128 = (*xi >> 127) & 1;
+            let bias: i128 = (1_i128 << (k - 1)) - sign_bit;
+            *xi = (*xi + bias) >> k;
+        });
     }
 }
 
